@@ -35,7 +35,7 @@ struct Fail {
   }
 };
 
-enum { CNT_LOOKUPS = CNT_USER, CNT_REPLAYS = CNT_USER + 1, CNT_REPLAY_OPS = CNT_USER + 2, CNT_VIOL_TRANS = CNT_USER + 3, CNT_DUP = CNT_USER + 4 };
+enum { CNT_LOOKUPS = CNT_USER, CNT_REPLAYS = CNT_USER + 1, CNT_REPLAY_OPS = CNT_USER + 2, CNT_VIOL_TRANS = CNT_USER + 3, CNT_DUP = CNT_USER + 4, CNT_TRIG_TRANS = CNT_USER + 5, CNT_TRIG_VIOL = CNT_USER + 6 };
 
 template <class M>
 struct Explorer {
@@ -74,8 +74,9 @@ struct Explorer {
     return j.done();
   }
   void report(int id, uint32_t op, bool has_op, const Fail& f) {
-    count(CNT_VIOL);
-    if (counter(CNT_VIOL) > 3000) return;          // global cap on emitted records (all workers)
+    // global caps on emitted records (all workers); cases matching a known-finding trigger are counted apart
+    if (f.trigger == "none") { count(CNT_VIOL); if (counter(CNT_VIOL) > 3000) return; }
+    else { count(CNT_TRIG_VIOL); if (counter(CNT_TRIG_VIOL) > 300) return; }
     if (!violcap().admit(f.site + "|" + f.clause + "|" + f.trigger)) return;
     report_violation(f.site, f.clause, f.trigger, input_json(id, op, has_op), f.observed, f.expected, f.detail);
   }
@@ -142,7 +143,9 @@ struct Explorer {
       if (!model.clone(base, w, &f)) { report(id, ops[i], true, f); continue; }
       bool ok = model.apply(w, ops[i], &f);
       count(CNT_TRANS);
-      if (!ok) { count(CNT_VIOL_TRANS); report(id, ops[i], true, f); continue; }
+      // a failing transition whose input matches a narrow known-finding predicate yields an invalid successor that is
+      // not expanded; any other failing transition also means that the closure is incomplete
+      if (!ok) { if (f.trigger == "none") count(CNT_VIOL_TRANS); else count(CNT_TRIG_TRANS); report(id, ops[i], true, f); continue; }
       emit(id, ops[i], model.key(w));
     }
     count(CNT_STATES);
